@@ -30,7 +30,7 @@ Print Assumptions seek_contract_one_call.
    of Prometheus; both are arbitrary functions related only by the anchoring law. *)
 From Coq Require Import NArith String Sorting.Sorted.
 From Qryn Require Import model.Sql model.Logql model.LogqlPlan model.PromSelect model.PromSel model.PromSem model.PromCase
-  model.ProfSel model.ProfSem proofs.PromSelProofs.
+  model.ProfSel model.ProfSem proofs.PromSelProofs proofs.ProfAbsProofs.
 
 (* The reference interpreter applied to the planner's own fingerprint query (the tree whose rendering
    is compared byte for byte with the implementation's SQL) computes the list function fp_sel. *)
@@ -249,21 +249,45 @@ Theorem prof_statement_meaning : forall re D1 D2 sels rows fp,
 Proof. exact prof_sel_correct. Qed.
 Print Assumptions prof_statement_meaning.
 
-(* full statement false: a selector accepting the empty string on a series lacking the label *)
-Theorem prof_select_exact_refuted :
-  ~ (forall (re_match re_full : string -> string -> bool), (forall v p, re_match v (anchor p) = re_full v p) ->
-     forall D1 D2 sels series fp, pdb_ok series ->
-       (List.length (snd (split_selectors (map prof_selector_val sels))) <= 63)%nat ->
-       (List.In fp (prof_fp_sel re_match D1 D2 (map prof_selector_val sels) (pgin_of series)) <->
-        List.In fp (prof_expected re_full D1 D2 sels series))).
-Proof.
-  intros H. specialize (H re_none re_none (fun _ _ => eq_refl) 19675 19675 pw_sels pw_series 61%N pw_db_ok).
-  rewrite pw_selected, pw_expected in H. assert (H' := H ltac:(cbn; auto with arith)). destruct H' as [_ H']. apply H'. now left.
-Qed.
-Print Assumptions prof_select_exact_refuted.
+(* Since the absent-label fix StreamSelectorPlanner.Process (model ProfSel.prof_selector_abs; prof_selector is its
+   processIndexed) plans every selector on a stored label that accepts the empty string as the exclusion
+   `fingerprint IN (SELECT .. <inverse selector> ..) == 0`: the reference interpreter applied to the planner's own tree
+   computes the list function prof_fp_sel_abs (pos_sels = the indexed selectors, neg_sels = the inverses of the others). *)
+Theorem prof_statement_abs_sql_meaning : forall re re_full rows tbl from_ns to_ns sels,
+  eval_prof_sel re (prof_selector_abs re_full tbl from_ns to_ns sels) rows =
+  prof_fp_sel_abs re (from_day from_ns) (to_ns / (86400 * 1000000000)) (pos_sels re_full sels) (neg_sels re_full sels) rows.
+Proof. exact eval_prof_selector_abs. Qed.
+Print Assumptions prof_statement_abs_sql_meaning.
 
-(* partial: selectors on non-pseudo labels reject the empty string (or no stored series lacks the label),
-   at most 63 of them: the statement returns exactly the fingerprints of the stored series inside the date
+(* THE PYROSCOPE SELECTION STATEMENT, in full (it was refuted before the fix: {region!="eu-west"} never selected a series
+   without a region label; the former theorem prof_select_exact_refuted).  For every stored series table with labels
+   functional per fingerprint, unique label names and at least one label per series (pdb_ok), every selector list with at
+   most 63 indexed selectors on stored labels: the statement Process builds, under the reference interpreter over the index
+   derived from the series, returns exactly the fingerprints of the stored series inside the date bounds that satisfy
+   every selector in the Pyroscope / Prometheus sense (pseudo labels from type id / sample types / service name, other
+   labels with absent = "", regexes anchored). *)
+Theorem prof_select_exact : forall (re_match re_full : string -> string -> bool),
+  (forall v p, re_match v (anchor p) = re_full v p) ->
+  forall tbl from_ns to_ns sels series fp, pdb_ok series ->
+    (List.length (snd (split_selectors (pos_sels re_full sels))) <= 63)%nat ->
+    (List.In fp (eval_prof_sel re_match (prof_selector_abs re_full tbl from_ns to_ns sels) (pgin_of series)) <->
+     List.In fp (prof_expected re_full (from_day from_ns) (to_ns / (86400 * 1000000000)) sels series)).
+Proof. intros re_match re_full Hl. intros. now apply (prof_select_statement_exact re_match re_full Hl). Qed.
+Print Assumptions prof_select_exact.
+
+(* the same over the list reading, for any date bounds *)
+Theorem prof_select_exact_reading : forall (re_match re_full : string -> string -> bool),
+  (forall v p, re_match v (anchor p) = re_full v p) ->
+  forall D1 D2 sels series fp, pdb_ok series ->
+    (List.length (snd (split_selectors (pos_sels re_full sels))) <= 63)%nat ->
+    (List.In fp (prof_fp_sel_abs re_match D1 D2 (pos_sels re_full sels) (neg_sels re_full sels) (pgin_of series)) <->
+     List.In fp (prof_expected re_full D1 D2 sels series)).
+Proof. intros re_match re_full Hl. intros. now apply (prof_fp_select_abs re_match re_full Hl). Qed.
+Print Assumptions prof_select_exact_reading.
+
+(* the index-only part (processIndexed, used for the indexed selectors and for every exclusion sub-query): when the
+   selectors on non-pseudo labels reject the empty string (or no stored series lacks the label),
+   at most 63 of them, the statement returns exactly the fingerprints of the stored series inside the date
    bounds that satisfy every selector (pseudo labels from type id / sample types / service name, other
    labels with absent = "", regexes anchored) *)
 Theorem prof_select_exact_partial : forall (re_match re_full : string -> string -> bool),
@@ -341,8 +365,8 @@ Print Assumptions range_filter_windows_partial.
 (* the two SQL expressions processHints adds, under the reference interpreter, are the functions the list readings
    bucket_series / range_filter are built from (for every hint and timestamp): the bucket column
    intDiv(spls.timestamp_ms - Start + Step - 1, Step) * Step + Start = bucket_of, and the condition
-   timestamp_ms % Step == 0 or timestamp_ms % Step >= Step - Range = range_keep.  (What remains checked per generated
-   case, verdict 9, is the GROUP BY / argMax structure around them.) *)
+   timestamp_ms % Step == 0 or timestamp_ms % Step >= Step - Range = range_keep.  (The GROUP BY / argMax / ORDER BY
+   structure around them is step_bucket_statement_sql_meaning below.) *)
 Theorem process_hints_expressions_meaning : forall re_match cte h ts v,
   (h_step h <> 0 ->
    ev re_match cte (ts_env "spls.timestamp_ms" ts) (bucket_expr h) = Some (VI (bucket_of (h_start h) (h_step h) ts))) /\
@@ -352,3 +376,110 @@ Theorem process_hints_expressions_meaning : forall re_match cte h ts v,
   Some (b2v (range_keep (h_step h) (h_range h) (ts, v))).
 Proof. intros. split; [apply ev_bucket_expr|apply ev_range_cond]. Qed.
 Print Assumptions process_hints_expressions_meaning.
+
+(* ---------- processHints at the statement level, and the guarded region of "PromQL over raw samples" ---------- *)
+From Qryn Require Import proofs.PromBucketProofs proofs.PromHintsProofs.
+
+(* The GROUP BY / argMax / ORDER BY structure of the step-bucketing statement, PROVED (it was checked per generated case):
+   for every inner samples query whose rows come ordered by (fingerprint, time), the reference interpreter applied to
+   processHints' wrapper (dedup of (fingerprint, bucket) keys, argMax = the latest row of the key, ORDER BY) computes
+   bucket_rows, and per fingerprint that is the list reading bucket_series the engine-view theorems are stated over. *)
+Theorem step_bucket_statement_sql_meaning : forall re_match q h db rows,
+  is_instant (h_func h) = true -> 0 < h_step h ->
+  eval_main re_match q db = Some rows -> StronglySorted row_le rows ->
+  eval_prom re_match (process_hints q h) db = Some (bucket_rows (h_start h) (h_step h) rows) /\
+  StronglySorted row_le (bucket_rows (h_start h) (h_step h) rows) /\
+  forall fp, rows_of fp (bucket_rows (h_start h) (h_step h) rows) = bucket_series (h_start h) (h_step h) (rows_of fp rows).
+Proof.
+  intros re_match q h db rows Hi Hs Hm Hsorted. split; [now apply eval_prom_process_hints|].
+  split; [now apply bucket_rows_sorted|]. intros fp. now apply bucket_rows_series.
+Qed.
+Print Assumptions step_bucket_statement_sql_meaning.
+
+(* What ClickHouse answers (reference interpreter) to the statement Select sends, for EVERY hint combination of the raw
+   path (prom_select_exact_rows is the case Step = 0): the rows of the Prometheus meaning, step-bucketed for an
+   instant-vector function or none, thinned by the modulo filter for a range-vector function with Range < Step,
+   untouched otherwise (hinted_rows). *)
+Theorem prom_select_rows_all_hints : forall (re_match re_full : string -> string -> bool),
+  (forall v p, re_match v (anchor p) = re_full v p) ->
+  forall cluster dbname h ms db, use_raw_data h = true -> (is_instant (h_func h) = true -> 0 <= h_step h) ->
+    db_ok (from_day (h_start h * 1000000)) (d_gin db) (d_series db) ->
+    selective re_full ms = true -> (List.length ms <= 63)%nat ->
+    prom_query_rows re_match re_full cluster dbname h ms db = Some (hinted_rows h (expected_rows re_full h ms db)).
+Proof. intros re_match re_full Hl. intros. now apply (prom_rows_all_hints re_match re_full Hl). Qed.
+Print Assumptions prom_select_rows_all_hints.
+
+(* EXACT on the bucket grid: the bucketed series shows what Prometheus shows at T = Start + j*Step if and only if no
+   stale edge occurs at T (the latest sample is older than the look-back, the end of its bucket is not): the finding
+   step-bucket-staleness-edge is exactly the complement *)
+Theorem step_bucket_lookup_exact_on_grid : forall start step j L l,
+  0 < step -> asc l -> Forall (fun s => start <= fst s) l ->
+  (visible L (start + j * step) (bucket_series start step l) = visible L (start + j * step) l <->
+   stale_edge start step L (start + j * step) l = false).
+Proof. exact step_bucket_exact_on_grid. Qed.
+Print Assumptions step_bucket_lookup_exact_on_grid.
+
+(* the grid guard (Step divides the look-back) is necessary: for every other Step one sample at the first evaluation time
+   is shown by Prometheus and not after bucketing (finding step-bucket-off-grid) *)
+Theorem step_bucket_guard_necessary : forall start step L,
+  0 < step -> 0 <= L -> Z.rem L step <> 0 ->
+  exists l, asc l /\ Forall (fun s => start <= fst s) l /\ stale_edge start step L (start + L) l = false /\
+            visible L (start + L) l = Some 1 /\ visible L (start + L) (bucket_series start step l) = None.
+Proof. exact step_bucket_grid_guard_necessary. Qed.
+Print Assumptions step_bucket_guard_necessary.
+
+(* the guard of the modulo filter (evaluation times multiples of Step) is necessary whenever 2 * Range < Step: an evaluation
+   time off the grid loses a sample of its window (finding range-filter-off-grid) *)
+Theorem range_filter_guard_necessary : forall step range T,
+  0 <= range -> 2 * range < step -> 0 <= T - range -> Z.rem T step <> 0 ->
+  exists l, Forall (fun s => 0 <= fst s) l /\ window range T l <> [] /\ window range T (range_filter step range l) = [].
+Proof. exact range_filter_grid_guard_necessary. Qed.
+Print Assumptions range_filter_guard_necessary.
+
+(* PROMQL OVER RAW SAMPLES, the guarded statement (the full one is false: the three processHints findings).  On the raw
+   path, for hints inside hints_guard -- the statement is left alone (Step = 0, or a function that is neither an
+   instant-vector function nor a range-vector function with Range < Step), or Step divides the 5 min look-back (step
+   bucketing), or Start + Range is a multiple of Step (modulo filter) -- every selected series reaches the engine so that:
+   untouched statements hand over exactly its in-range samples; an instant selector shows at each of its evaluation times
+   Start + look-back + k*Step the value Prometheus shows on the raw samples, except at a stale edge; a range selector
+   receives at each of its evaluation times Start + Range + k*Step exactly the samples of its window [T - Range, T].
+   Outside the guard and at stale edges the recorded findings apply (the three theorems above make the guards exact /
+   necessary).  The engine itself (functions over these selector views) is Prometheus' own code, not modelled. *)
+Theorem promql_over_raw_samples_partial : forall (re_match re_full : string -> string -> bool),
+  (forall v p, re_match v (anchor p) = re_full v p) ->
+  forall cluster dbname h ms db,
+    use_raw_data h = true -> 0 <= h_start h -> hints_guard h = true ->
+    db_ok (from_day (h_start h * 1000000)) (d_gin db) (d_series db) ->
+    selective re_full ms = true -> (List.length ms <= 63)%nat ->
+    exists rows, prom_query_rows re_match re_full cluster dbname h ms db = Some rows /\
+      forall fp,
+        let raw := rows_of fp (expected_rows re_full h ms db) in
+        let got := rows_of fp rows in
+        (plain_hints h = true -> got = raw) /\
+        (is_instant (h_func h) = true -> forall k,
+           stale_edge (h_start h) (h_step h) lookback_ms (h_start h + lookback_ms + k * h_step h) raw = false ->
+           visible lookback_ms (h_start h + lookback_ms + k * h_step h) got =
+           visible lookback_ms (h_start h + lookback_ms + k * h_step h) raw) /\
+        (is_instant (h_func h) = false -> forall k,
+           window (h_range h) (h_start h + h_range h + k * h_step h) got =
+           window (h_range h) (h_start h + h_range h + k * h_step h) raw).
+Proof. intros re_match re_full Hl. intros. now apply (promql_over_raw_samples_guarded re_match re_full Hl). Qed.
+Print Assumptions promql_over_raw_samples_partial.
+
+(* ---------- the labels request of labelsGetter under the interpreter ---------- *)
+From Qryn Require Import lib.Strs lib.DecN proofs.PromLabelsProofs.
+
+(* The reference interpreter applied to labelsGetter.getFetchRequest's own tree (the one whose rendering is compared byte for
+   byte with the labels statement Select sends) answers the list reading fetch_rows that prom_select_exact_series and
+   select_independent_of_earlier_selects use: the rows of time_series between the two date bounds whose fingerprint is one
+   of the planned ones.  The fingerprints travel as spliced decimal numerals; the interpreter reads them back, which is
+   sound because the decimal printer is injective (string_of_N_injective below, lib/DecN.v). *)
+Theorem labels_request_sql_meaning : forall re_match cluster fps from_ms to_ms series,
+  eval_fetch re_match (labels_fetch cluster fps from_ms to_ms) series =
+  Some (fetch_rows (from_day (from_ms * 1000000)) (to_ms / 86400000) fps series).
+Proof. exact eval_labels_fetch. Qed.
+Print Assumptions labels_request_sql_meaning.
+
+Theorem string_of_N_injective : forall a b, string_of_N a = string_of_N b -> a = b.
+Proof. exact string_of_N_inj. Qed.
+Print Assumptions string_of_N_injective.
